@@ -636,6 +636,110 @@ def _forced_disable_race(ctx, active):
         _call(ep.protocol.disable, 2.0)
 
 
+def _forced_restart_race(ctx, active):
+    """Forced schedule: the receiver thread of a connection the peer has closed is held right before it starts the next listen /
+    connect thread (it has seen 'enabled'); disable() is called meanwhile. When disable() has returned the endpoint must neither
+    listen nor connect any more."""
+    import sys
+
+    port = _free_port(ctx)
+    ep = RealEndpoint(active, port)
+    fname = "tcp_client_connection" if active else "tcp_server_connection"
+    needle = "__start_connect_thread()" if active else "__start_server_thread()"
+    at_restart = threading.Event()
+    release = threading.Event()
+
+    def tracer(frame, event, arg):
+        if event != "call" or frame.f_code.co_name != "_closed" or fname not in frame.f_code.co_filename:
+            return None
+        try:
+            with open(frame.f_code.co_filename) as fh:
+                lines = fh.readlines()
+        except OSError:
+            return None
+
+        def line(frame, event, arg):
+            if event == "line" and needle in lines[frame.f_lineno - 1] and not at_restart.is_set():
+                at_restart.set()
+                release.wait(6.0)
+            return line
+        return line
+
+    wit = {"mode": "active" if active else "passive", "scenario": "forced: connection ends, receiver thread held before the restart, disable() meanwhile"}
+    listener = None
+    sock = None
+    threading.settrace(tracer)
+    try:
+        if active:
+            listener = socket.socket()
+            listener.setsockopt(socket.SOL_SOCKET, socket.SO_REUSEADDR, 1)
+            listener.bind(("127.0.0.1", port))
+            listener.listen(4)
+            listener.settimeout(4.0)
+        ep.protocol.enable()
+        try:
+            if active:
+                sock, _ = listener.accept()
+            else:
+                end = time.monotonic() + 4
+                while sock is None and time.monotonic() < end:
+                    try:
+                        sock = socket.create_connection(("127.0.0.1", port), timeout=1.0)
+                    except OSError:
+                        time.sleep(0.02)
+        except OSError:
+            sock = None
+        if sock is None:
+            ctx.count("partB.forced_restart_probe_not_reached")
+            return
+        time.sleep(0.2)
+        sock.close()                       # the peer closes: the endpoint's receiver thread runs its close sequence
+        if not at_restart.wait(5.0):
+            ctx.count("partB.forced_restart_probe_not_reached")     # the statement does not exist (any more)
+            return
+        th, ok, box = _call(ep.protocol.disable, 0.4)     # disable() meanwhile; it may have to wait for the held thread
+        release.set()
+        th.join(8.0)
+        ctx.count("partB.forced_restart_probes")
+        ctx.case(("B-forced-restart", active), nontrivial=True)
+        if th.is_alive():
+            if stuck.blocked_forever([th], watch=0.8, samples=4) or _spinning([th]):
+                ctx.violation("B:disable-never-returns-when-the-connection-ended-at-the-same-moment", {**wit, "disable_stack": stuck_stack(th)})
+            else:
+                ctx.unsure(f"forced restart race: disable() still running after 8 s: {wit}")
+            return
+        time.sleep(0.5)
+        name = "secsgem_tcpClientConnection_connectThread" if active else "secsgem_tcpServerConnection_serverThread"
+        alive = [t.name for t in threading.enumerate() if t.name.startswith(name)]
+        reachable = False
+        if not active:
+            try:
+                socket.create_connection(("127.0.0.1", port), timeout=0.5).close()
+                reachable = True
+            except OSError:
+                reachable = False
+        else:
+            listener.settimeout(1.5)
+            try:
+                c2, _ = listener.accept()
+                c2.close()
+                reachable = True
+            except OSError:
+                reachable = False
+        if alive or reachable:
+            ctx.violation("B:disabled-endpoint-still-listens-or-connects", {**wit, "threads": alive, "peer_reaches_it": reachable})
+    finally:
+        threading.settrace(None)
+        release.set()
+        for sck in (sock, listener):
+            if sck is not None:
+                try:
+                    sck.close()
+                except OSError:
+                    pass
+        _call(ep.protocol.disable, 3.0)
+
+
 def _peer_leaves_at_once(ctx, rounds):
     """A passive endpoint is visited by peers that connect and leave at once (port scan, health check, crashed peer) - while the
     accept thread is still handing the connection over. After each visit a proper peer must be accepted and selected."""
@@ -690,6 +794,8 @@ def part_b(ctx, n):
         _forced_disable_race(ctx, active=ctx.shard % 2 == 0)
     if 4 <= ctx.shard < 8 or ctx.nshards < 8:
         _peer_leaves_at_once(ctx, 12 if ctx.quick else 200)
+    if 8 <= ctx.shard < 12 or ctx.nshards < 12:
+        _forced_restart_race(ctx, active=ctx.shard % 2 == 0)
     inj = sched.YieldInjector(["secsgem/common/tcp_connection.py", "secsgem/common/tcp_server_connection.py",
                                "secsgem/common/tcp_client_connection.py"])
     inj.install()
